@@ -73,6 +73,11 @@ def tables(cs, rng, n):
     out.append(("looks-like-syntax", {"vars": ["a", "b"], "rows": [{"a": looks[i], "b": looks[-1 - i]} for i in range(len(looks))]}))
     for i, x in enumerate(looks):
         out.append(("looks-like-syntax-1", {"vars": ["a"], "rows": [{"a": x}]}))
+    # a backslash followed by a letter that names an escape: two characters, not one
+    bs = [L("C:\\temp\\new"), L("\\bword\\b", lang="en"), L("a\\tb", dt=EX + "dt"), L("\\n"), L("\\\\n"), L("\\r\\f"), L("x\\"), L("\\u0041"), L("\\\"q\\\""), L("TeX: \\frac{a}{b} \\times \\nu")]
+    out.append(("backslash-letter", {"vars": ["a", "b"], "rows": [{"a": bs[i], "b": bs[-1 - i]} for i in range(len(bs))]}))
+    for x in bs:
+        out.append(("backslash-letter-1", {"vars": ["a"], "rows": [{"a": x}]}))
     out.append(("duplicate-rows", {"vars": ["a"], "rows": [{"a": cs[0]}, {"a": cs[0]}, {"a": cs[2]}, {"a": cs[2]}]}))
     out.append(("var-order", {"vars": ["z", "a", "m"], "rows": [{"z": cs[0], "a": cs[1], "m": cs[5]}]}))
     for i, c in enumerate(cs):
@@ -109,6 +114,12 @@ def run(out, tier, seed):
         if not any(x["k"] == "lit" and _re.search("[\x00-\x08\x0b\x0c\x0e-\x1f\ufffe\uffff]", x["v"]) for r in t["rows"] for x in r.values()):     # no XML document can carry these
             jobs.append({"cfg": {"seed": seed * 5 + ti}, "events": [{"op": "xml_read", "fmt": "xml", "shape": name, "table": t}]})
         jobs.append({"cfg": {}, "events": [{"op": "csv", "shape": name, "table": t}]})
+        # a result whose solutions come from a generator and which has been partly read by iteration before it is written
+        # (rows that bind nothing are left out here: iteration drops them, the listed finding KF-C04-iter-drops-empty)
+        if len(t["rows"]) >= 2 and all(r for r in t["rows"]) and ti % 2 == 0:
+            for fmt in ("json", "xml"):
+                jobs.append({"cfg": {}, "events": [{"op": "rt", "fmt": fmt, "shape": name + ":lazy", "table": t, "lazy": 2 + ti % len(t["rows"])}]})
+            jobs.append({"cfg": {}, "events": [{"op": "csv", "shape": name + ":lazy", "table": t, "lazy": 2 + ti % len(t["rows"])}]})
     for fmt in ("json", "xml"):
         for v in (True, False):
             jobs.append({"cfg": {}, "events": [{"op": "ask", "fmt": fmt, "value": v}]})
